@@ -11,7 +11,7 @@ def _extra(run):
         run.extra_cov["panic_inventory"] = info
     run.extra_cov["modelled_rules"] = [
         "check_tx_ex_units (Alonzo/Babbage/Conway)", "check_min_fee / check_fees + check_tx_size (four post-Byron eras)",
-        "collateral percentage arithmetic of check_collaterals_assets", "compute_min_lovelace arithmetic (all eras)",
+        "check_collaterals_assets of Alonzo / Babbage / Conway: collateral sum, lovelace_diff_or_fail / conway_lovelace_diff_or_fail (every arm, `f - s` as a panic site), percentage arithmetic, annotation", "compute_min_lovelace arithmetic (all eras)",
         "Shelley-MA deposit / refund arithmetic and the MIR total", "check_preservation_of_value + value arithmetic of utils.rs (all eras)",
         "Byron check_fees", "verification-key witness and required-signer checks (four post-Byron eras)", "validate_txs loop"]
     run.extra_cov["unmodelled_search_only"] = [
@@ -26,7 +26,8 @@ SPEC = {
     "level": "other",
     "lean_modules": ["PallasVerif.Props.C33", "PallasVerif.Proofs.ValueTotal"],
     "required_theorems": ["validate_total", "panic_sites_all_audited", "all_anchored_files_scanned", "exunits_total", "min_fee_total",
-                          "fee_and_size_total", "collateral_total", "min_lovelace_total", "deposits_total", "mir_total", "preservation_total",
+                          "fee_and_size_total", "collateral_total", "subU64_panics_iff", "lovelace_diff_total", "collateral_balance_total",
+                          "collateral_alonzo_total", "min_lovelace_total", "deposits_total", "mir_total", "preservation_total",
                           "preservation_total_shelleyMA", "preservation_total_conway", "byron_fees_total", "witness_total",
                           "witness_total_shelley", "validate_txs_total"],
     "translators": [_panic_sites],
@@ -39,13 +40,21 @@ SPEC = {
             "entry and an override of minfee_a / minfee_b / block slot / collateral percentage / Byron fee coefficients) + 1-3 `sv` ops (a "
             "correctly signed synthesized transaction of one of six eras with boundary-weighted coin / asset / mint / fee quantities, zero "
             "quantities, outputs in the legacy or the post-Alonzo form, optionally a collateral section with collateral return and total "
-            "collateral); every scenario that still decodes goes through validate_txs under catch_unwind with a location-recording panic "
+            "collateral) + 1-2 collateral groups: collateral inputs (lovelace only / with assets in one or every input; 1.5 x fee, 0-2, "
+            "boundary values), collateral return (absent / lovelace only / same assets / other assets / a zero-quantity asset; holding "
+            "less, as much, one more, much more lovelace than the inputs, 0, 2^64-1), total collateral (absent, exact, +-1) as `cb` "
+            "(check_collaterals_assets alone through verif_hooks, answer compared with Model/PhaseOneArith.collateralAlonzo / "
+            "collateralBalance), `ld` (utils::lovelace_diff_or_fail / conway_lovelace_diff_or_fail on the summed inputs and the return, "
+            "compared with lovelaceDiffOrFail) and `sv` (the same section in a correctly signed whole transaction) + half of the time `fc` "
+            "(one of the fixtures that carry collateral, the collateral UTxO entries and body keys 16 / 17 rewritten the same way); every "
+            "whole-transaction scenario that still decodes goes through validate_txs under catch_unwind with a location-recording panic "
             "hook; distinct = sha1 of op text; non-trivial = at least one scenario of the case decoded and was validated",
     "trusted_base": ["level `other`: the theorems cover the rules that have a Lean model (listed in coverage.modelled_rules; the models are tied "
                      "verdict-by-verdict to the code by the streams of C34-C37 and C39) and the audited inventory; the rest of the "
                      "validators (coverage.unmodelled_search_only) is exercised by stream `valtotal` only - search, not proof",
                      "lib/scan_panics_c33.py (regex inventory of panic sites in phase1/*.rs, utils.rs, utils/*.rs) + the human audit "
-                     "lib/panic_audit_C33.json; panic sites inside the crates the validators call are not inventoried",
+                     "lib/panic_audit_C33.json (an entry may name the guard it relies on as a regex; the scanner re-checks it in front of every "
+                     "occurrence, so `guarded` does not survive the removal of the guard); panic sites inside the crates the validators call are not inventoried",
                      "harness/src/fixtures (ported test data, synth builder, mutate.rs of C09)"],
     "assumptions": ["protocol parameters are those of a Cardano network ('well-known'): coins-per-byte / min-utxo below 2^32, deposits below "
                     "2^40 - with arbitrary parameters compute_min_lovelace and the Shelley deposit products are unchecked u64 "
@@ -56,5 +65,7 @@ SPEC = {
                    "commits (known_findings.d/C33.json). Self-tests: (1) add_lovelace with `+` instead of checked_add -> VIOLATION (panic "
                    "pallas-validate/src/utils.rs attempt_to_add_with_overflow) with a replay; (2) verify_signature back to copy_from_slice -> "
                    "VIOLATION + new unaudited site breaks panic_sites_all_audited; (3) harmless: reordering two independent checks in "
-                   "validate_babbage_tx -> quiet.",
+                   "validate_babbage_tx -> quiet; (4) seeded C33-a (`f >= s` dropped from the Multiasset/Multiasset arm of "
+                   "conway_lovelace_diff_or_fail) -> VIOLATION panic utils.rs attempt_to_subtract_with_overflow with a replay, model/impl "
+                   "differences on `ld` / `cb`, and panic_sites_all_audited broken (guard regex of the audit entry no longer matches).",
 }
